@@ -82,9 +82,10 @@ public:
     assert(SH().OnAMPLOptions);
 
     AMPLOptions_C ao_c;
-    ao_c.n_options_ = (int)ao.options_.size();
-    std::copy(ao.options_.begin(), ao.options_.end(),
-              ao_c.options_);
+    ao_c.n_options_ = (int)std::min(ao.options_.size(),
+        sizeof(ao_c.options_) / sizeof(ao_c.options_[0]));
+    std::copy_n(ao.options_.begin(), ao_c.n_options_,
+                ao_c.options_);
     ao_c.has_vbtol_ = ao.has_vbtol_;
     ao_c.vbtol_ = ao.vbtol_;
 
